@@ -111,5 +111,8 @@ def render_geometry(case):
                 direction=b.style['direction'], normal=b.is_in_normal_flow(),
                 nlines=sum(1 for c in b.children if isinstance(c, boxes.LineBox)),
                 s_w=str(b.style['width']), s_ml=str(b.style['margin_left']), s_mr=str(b.style['margin_right']),
+                # the declarations as written (the computed style is part of what is judged)
+                sty=(b.element.get('style') if b.element is not None and not getattr(b, 'is_anonymous', False) else None),
+                nkids=sum(1 for c in b.children if not isinstance(c, boxes.LineBox)),
             ))
     return recs
